@@ -14,16 +14,25 @@ inductive Ty
   | strct            -- a struct type without registered ops
   | iface            -- an interface type with methods
   | impl             -- a concrete type implementing `iface`
+  | honly            -- a type registered (frame.RegisterOps) with `HashWithSeed` only
+  | lonly            -- a type registered with `Less` only
   | slice (t : Ty)
 deriving DecidableEq, Repr, Inhabited
 
 /-- `reflect.Type.AssignableTo` on this universe -/
 def assignable (t u : Ty) : Bool := t == u || (u == .iface && t == .impl)
 
-/-- types with registered `Less`/`HashWithSeed` (frame/ops_builtin.go) -/
-def hasOps : Ty → Bool
-  | .int | .i64 | .str | .bool | .f64 => true
+/-- `frame.CanHash` / `frame.CanCompare` (frame/ops.go:98-107): the built-in key types and user registrations -/
+def canHash : Ty → Bool
+  | .int | .i64 | .str | .bool | .f64 | .honly => true
   | _ => false
+
+def canCompare : Ty → Bool
+  | .int | .i64 | .str | .bool | .f64 | .lonly => true
+  | _ => false
+
+/-- a key column must be hashable *and* comparable (reduce.go:83-94, cogroup.go:70-78) -/
+def hasOps (t : Ty) : Bool := canHash t && canCompare t
 
 /-- `canMakeAccumulatorForKey` (accum.go:28-35) -/
 def canAccum : Ty → Bool
